@@ -2,7 +2,9 @@
 
 proof          : coq/theories/Props/C18.v (model Model/DataSaver.v over Model/GenericLearner.v)
 correspondence : seeded histories on the real DataSaver over a real child whose calls are recorded
-                 (Run/OracleChild.v) vs the model (vm_compute in Coq)
+                 (Run/OracleChild.v) vs the model (vm_compute in Coq); Run/DataSaverRun.v extends the model's
+                 history ops by XSetData (load / copy_from / _set_data into the saver as it is = Model set_data,
+                 the subject of C18_roundtrip) and XInner (a call on the wrapped learner behind the saver's back)
 search         : from-scratch twin oracle: the same history on the bare learner fed the picked values, in
                  lock-step, every public observable compared after every operation (npoints, data,
                  pending_points, loss(real) both ways, bounds & co., every public attribute read through
@@ -409,6 +411,11 @@ def drive(spec, hist=None, rng=None, concrete=None, record=True, overwrites=True
     if spec.get("prefill"):
         prefill(kind, child, spec["prefill"])
         prefill(kind, twin, spec["prefill"])
+    for l in (child, twin):       # both are looked at before the history starts (the recorder does so on the wrapped
+        try:                      # one): Learner2D keeps cached interpolators across a load
+            public_state(kind, l)
+        except Exception:
+            pass
     rec = W.Recorder(kind, child, 0, names=W.Recorder.NAMES + ("_set_data",), tolerant=True) if record else None
     picker = CountingPicker(make_picker(pname))
     ds = DataSaver(child, arg_picker=picker)
@@ -1086,6 +1093,13 @@ def run(chk: Check) -> int:
              "trips; non-trivial = an out-of-order tell and (a point told twice or pending points marked/discarded); distinct by "
              "(child, picker, op list)",
         assumptions=["hand-written model Model/DataSaver.v tied to the code by the sampled correspondence only",
+                     "what a DataSaver has to keep after a load into a saver that holds other points depends on the wrapped "
+                     "learner's own _set_data (probed on the bare learner: Learner1D / SequenceLearner / AverageLearner1D add the "
+                     "loaded points, Learner2D / LearnerND / AverageLearner / IntegratorLearner replace their data); for the "
+                     "adding learners the code drops results of points the learner keeps (listed finding "
+                     "C18:load_drops_told_result) and the model comparison stops at such a load",
+                     "a wrapped learner that cannot be observed after a load (Learner2D: loss() raises when its stack lost the "
+                     "corner points) ends the history; it must fail the same way with and without the wrapper",
                      "the wrapped learner enters the model run as a recorded oracle table (Run/OracleChild.v)",
                      "C18_extra_data assumes == on points is an equivalence relation (PointLaws)",
                      "IntegratorLearner.tell_pending takes no argument, so DataSaver.tell_pending is not exercised over it; "
